@@ -150,6 +150,29 @@ Theorem C10_reentrant_read_lock_refuted :
   (forall ranks, acq_table_ok ranks [ {| q_mutex := 7%N; q_mode := MR; q_may := [7%N] |}; {| q_mutex := 7%N; q_mode := MW; q_may := [] |} ] = false).
 Proof. exact reentrant_rlock_deadlocks. Qed.
 
+(* ---- no lock is leaked to the caller ----
+   A goroutine that has returned from an entry point of the library holds none of its mutexes (instance: no row of the
+   regenerated exit table holds anything); so, with the lock order, whenever somebody is blocked a blocked call can return
+   or a goroutine INSIDE the library is running with the lock (it reaches its unlock: every return path unlocks) *)
+Theorem C10_no_lock_leak_outside_holds_nothing :
+  forall t : lthread, returned_from lock_exits t -> l_held t = [].
+Proof. exact (fun t => no_leak_outside_holds_nothing lock_exits t no_lock_leak_ok). Qed.
+
+Theorem C10_no_lock_leak_running_holder_is_inside :
+  forall ts : lockstate,
+    (forall t, In t ts -> at_row acquisitions t) ->
+    (exists t, In t ts /\ waiting t = true) ->
+    (exists t, In t ts /\ waiting t = true /\ can_enter ts t = true) \/
+    (exists t, In t ts /\ l_held t <> [] /\ waiting t = false /\ ~ returned_from lock_exits t).
+Proof. exact (fun ts => running_holder_is_inside lock_ranks acquisitions lock_exits ts lock_order_ok no_lock_leak_ok). Qed.
+
+(* what a leaked lock does: a goroutine that returned holding m in write mode (nobody can unlock for it) makes every Lock
+   and RLock on m wait for ever, in every state in which it still holds it, any number of goroutines *)
+Theorem C10_leaked_lock_blocks :
+  forall (ts : lockstate) u m, In u ts -> holds_w m u = true ->
+    forall t md, In t ts -> l_wait t = Some (m, md) -> can_enter ts t = false.
+Proof. exact leaked_lock_blocks. Qed.
+
 (* and two mutexes taken in opposite orders *)
 Theorem C10_lock_order_inversion_refuted :
   deadlocked abba_state = true /\
@@ -170,6 +193,9 @@ Print Assumptions C10_no_deadlock_by_lock_order.
 Print Assumptions C10_never_deadlocked.
 Print Assumptions C10_reentrant_read_lock_refuted.
 Print Assumptions C10_lock_order_inversion_refuted.
+Print Assumptions C10_no_lock_leak_outside_holds_nothing.
+Print Assumptions C10_no_lock_leak_running_holder_is_inside.
+Print Assumptions C10_leaked_lock_blocks.
 (* the hypotheses are satisfiable by a non-trivial state: three goroutines record tokenizations of sizes 120, 7
    and 300 (the second with an error) and one records a parse; an interleaved schedule; all finish; the totals
    are the true ones *)
